@@ -101,8 +101,12 @@ end ElemRange
 namespace ElemIt
 /-- `current()` / `operator*` 843-846: `base_ + std::apply(l_, ns_)` -/
 def current (it : ElemIt) : Int := it.base + it.lay.apply it.ns
-/-- `operator++` 801-805 -/
-def inc (it : ElemIt) : ElemIt := { it with ns := (Exts.nextCanonical it.xs it.ns).1, n := it.n + 1 }
+/-- `operator++` 801-806: `next_canonical`, `++n_`, and when the carry leaves the leading dimension (one past
+    the last element) the index tuple is recomputed as `from_linear_(n_)`, the tuple `end()` holds. -/
+def inc (it : ElemIt) : Option ElemIt :=
+  let (ns', wrapped) := Exts.nextCanonical it.xs it.ns
+  if wrapped then (ElemRange.fromLinearG it.xs (it.n + 1)).map fun ns => { it with ns := ns, n := it.n + 1 }
+  else some { it with ns := ns', n := it.n + 1 }
 /-- `operator--` 806-810 -/
 def dec (it : ElemIt) : ElemIt := { it with ns := (Exts.prevCanonical it.xs it.ns).1, n := it.n - 1 }
 /-- `operator+=(n)` 812-817 -/
